@@ -245,13 +245,13 @@ def step (s : State) (toks : List String) : State × String :=
         | none => (s, "disabled")
       | none => (s, "disabled")
     | none => (s, "bad-op")
-  -- sending side: `send <parents: -,0,0,1,…> <me> <to:j|children|parent|bcast|multi:j,k>` answers the
+  -- sending side: `send <parents: -,0,0,1,…> <me> <to:j|children|childrenpar|parent|bcast|multi:j,k>` answers the
   -- addressed nodes, sorted
   | ["send", par, me, pat] =>
     let parents : Option (List (Option Nat)) :=
       (par.splitOn ",").mapM fun x => if x = "-" then some none else x.toNat?.map some
     let pat? : Option Send.Pattern :=
-      if pat = "children" then some .children
+      if pat = "children" || pat = "childrenpar" then some .children
       else if pat = "parent" then some .parent
       else if pat = "bcast" then some .bcast
       else match pat.splitOn ":" with
